@@ -182,7 +182,7 @@ func runC15(c *core.Ctx) {
 		ck := c.Prog.Func(cp, "(*scanner).checkEI")
 		cs := c.Prog.Src(ck.Decl.Body)
 		o.At(ck.Site(ck.Decl, "checkEI"))
-		o.Require(strings.Contains(cs, "ifbuf[0]!='E'||buf[1]!='I'{returnfalse}") && strings.Contains(cs, "returnclass[buf[2]]!=regular"), "checkEI must require 'E','I' and a following non-regular byte")
+		o.Shape(strings.Contains(cs, "ifbuf[0]!='E'||buf[1]!='I'{returnfalse}") && strings.Contains(cs, "returnclass[buf[2]]!=regular"), "checkEI must require 'E','I' and a following non-regular byte")
 	})
 	// limits (subset of the C05 table that belongs to the content scanner)
 	for _, lu := range c05Limits {
